@@ -61,6 +61,13 @@ func TestVerifBoundedC07(t *testing.T) {
 		"interface org.example.b\nmethod M(a: int) -> (a: int)\nmethod N(b: (c: (d: (e: int)))) -> ()\ntype U (v: ?[]?[string]?U)\n",
 		"interface org.example.b\nmethod M() -> ()\nmethod N() -> ()\nmethod O() -> ()\nerror E1 ()\nerror E2 (a: int, b: string, c: float)\n",
 	)
+	// references between aliases in every order: backward, forward, mutual, self, through containers
+	descs = append(descs,
+		"interface org.example.b\ntype Leaf (x: int)\ntype Branch (leaf: Leaf)\nmethod M(b: Branch) -> (l: Leaf)\n",
+		"interface org.example.b\ntype Branch (leaf: Leaf)\ntype Leaf (x: int)\nmethod M(b: Branch) -> (l: Leaf)\n",
+		"interface org.example.b\ntype Tree (root: ?Node)\ntype Node (tree: ?Tree, kids: []Node)\nmethod M() -> (t: Tree)\n",
+		"interface org.example.b\nmethod M(a: []Later, b: [string]Later) -> (c: ?Later)\nerror E (l: Later)\ntype Later (x: int)\n",
+	)
 	// deep nesting: 12 levels of anonymous structs in every position (indentation / recursion depth)
 	deep := "int"
 	for i := 0; i < 12; i++ {
